@@ -184,7 +184,7 @@ class Check:
         if os.path.exists(os.path.join(REPO, "go.sum")):
             shutil.copy2(os.path.join(REPO, "go.sum"), os.path.join(self.work, "go.sum"))
         cmd = ["go", "build", "-tags", "verif", "-overlay", ovp, "-modfile", os.path.join(self.work, "go.mod"), "-o", self.harness_bin]
-        if self.cfg.get("race") and self.tier == "thorough":
+        if self.cfg.get("race"):
             cmd.insert(2, "-race")
         rc, out = sh(cmd + ["./internal/verifharness"], cwd=REPO, env=dict(GOENV, CGO_ENABLED="1" if "-race" in cmd else GOENV["CGO_ENABLED"]), timeout=900)
         if rc != 0:
@@ -231,6 +231,8 @@ class Check:
             env = dict(os.environ, GOMEMLIMIT="6GiB", GOTRACEBACK="single")
             if self.model_ok:
                 env["VERIF_MODEL_BIN"] = self.model_bin
+            if self.cfg.get("race"):
+                env["GORACE"] = "halt_on_error=0 log_path=%s" % os.path.join(self.work, "race")
             remaining = list(self.cases)
             open(ip, "w").close()
             crashes = 0
@@ -363,6 +365,7 @@ def load_known():
 def write_replay(chk, name, obj):
     d = os.path.join(VERIF, "replays", chk.pid)
     os.makedirs(d, exist_ok=True)
+    name = re.sub(r"[^A-Za-z0-9_.:-]", "_", name)
     p = os.path.join(d, name)
     json.dump(obj, open(p, "w"), indent=1)
     return p
